@@ -170,9 +170,10 @@ def build(q, world, inst, mode="query"):
 # reference semantics (plain Python)
 # ------------------------------------------------------------------------------------------------
 class Ref:
-    def __init__(self, world, inst):
+    def __init__(self, world, inst, universals=()):
         self.world = world
         self.inst = inst
+        self.udomains = {v[0]: self.domain(v) for v in universals}   # variables bound by for_all, not by the product
 
     def domain(self, var):
         name, style, clsname, domkey = var
@@ -235,7 +236,11 @@ class Ref:
         raise ValueError(c)
 
     def universal_values(self, t, env):
-        raise NotImplementedError
+        """for_all(t, c): t is a variable or an expression over one variable; one environment per value of t"""
+        names = sorted(cond_vars(t))
+        assert len(names) == 1, t
+        for o in self.udomains[names[0]]:
+            yield {names[0]: o}
 
     def solutions(self, q):
         """All assignments (dict name -> object) of q's declared variables, in product order, satisfying its conds."""
